@@ -54,7 +54,7 @@ def required_counters(tier):
         "kind.dataclass": 10,
         "kind.property": 10,
         "hooked_module.runs": 2,
-        "env.then_update_steps": 100,
+        "env.then_update_steps": 100, "window.annotations_built_while_disabled": 100,
     }
 
 
@@ -244,6 +244,9 @@ def check_enabled_rejects(rec, label, kinds, case_base):
                 rec.violation("not-rechecked", dict(case_base, kind=kind, input=iname), f"{label}: checking is on again but {kind}({iname}) gave {o2}, body ran {len(l2)}x", mechanism=f"{label.split(':')[0]}-reenable-not-checked")
 
 
+_OUTSIDE = {}
+
+
 def arm_config_update(rec, rng):
     import beartype
     import typeguard
@@ -351,6 +354,50 @@ def arm_config_update(rec, rng):
         compare_disabled(rec, "update:before-decoration", kinds, base)
         config.update("jaxtyping_disable", rng.choice(LEGAL_FALSE))
         check_enabled_rejects(rec, "update:before-decoration", kinds, base)
+        # (1b) annotation objects BUILT (or unpickled / copied) while checking is off, used after it is on again:
+        # direct isinstance, PyTree leaves, and a function decorated afterwards - like objects built outside
+        import copy
+        import pickle
+
+        import jaxtyping as _jt
+
+        config.update("jaxtyping_disable", True)
+        try:
+            L = _jt.Float[N, "a"]
+            built = {"array": _jt.Float[N, "a b"], "leaf": L, "pytree": _jt.PyTree[L], "pytree-structured": _jt.PyTree[_jt.Float[N, "a"], "T"], "nested": _jt.Shaped[_jt.Float[N, "a"], "b"]}
+            outside = _jt.Float[N, "a b"]
+            built["unpickled"] = pickle.loads(pickle.dumps(_OUTSIDE.setdefault("ab", _jt.Float[N, "a b"])))
+            built["deepcopied"] = copy.deepcopy(_OUTSIDE["ab"])
+        finally:
+            config.update("jaxtyping_disable", False)
+        built["pytree-same-leaf-after"] = _jt.PyTree[L]
+        probes = {
+            "array": (A(2, 3), A(2, 3, dt="int32"), A(2)),
+            "leaf": (A(2), A(2, dt="int32"), A(2, 2)),
+            "pytree": ([A(2), A(2)], [A(2), A(3)], [A(2, dt="int32")]),
+            "pytree-structured": ([A(2), A(2)], [A(2), A(3)], [A(2, dt="int8")]),
+            "pytree-same-leaf-after": ([A(2), A(2)], [A(2), A(3)], [A(2, dt="int32")]),
+            "nested": (A(3, 2), A(3, 2, dt="int32"), A(3)),
+            "unpickled": (A(2, 3), A(2, 3, dt="int32"), A(2)),
+            "deepcopied": (A(2, 3), A(2, 3, dt="int32"), A(2)),
+        }
+        for what, ann in built.items():
+            good, bad1, bad2 = probes[what]
+            got = real.in_block_context(lambda: (isinstance(good, ann), isinstance(bad1, ann), isinstance(bad2, ann)))
+            rec.count("window.annotations_built_while_disabled")
+            rec.case(("window-annotation", cname, what), True)
+            if got != (True, False, False):
+                rec.violation("not-rechecked", dict(base, built=what), f"annotation ({what}) built while checking was off, used after it is on again: isinstance on (good, bad, bad) values gave {got}", mechanism="window-built-annotation-" + what + "-inert")
+            ns2 = {"T_x": ann}
+            real.exec_src("def h(x: T_x):\n    return 1\n", ns2)
+            hd = _jt.jaxtyped(typechecker=checker)(ns2["h"])
+            try:
+                hd(bad1)
+                o = "ran"
+            except Exception as e:  # noqa
+                o = type(e).__name__
+            if o == "ran":
+                rec.violation("not-rechecked", dict(base, built=what), f"annotation ({what}) built while checking was off: a function decorated and called after re-enabling accepted an ill-typed argument", mechanism="window-built-annotation-" + what + "-inert-in-signature")
         # (2) decorated while enabled, toggled between decoration and call
         kinds = make_callables(checker)
         check_enabled_rejects(rec, "update:between", kinds, base)
